@@ -205,6 +205,39 @@ int main(int argc, char** argv) {
       TmpFile t(file);
       Image im(t.f);
       if (int r = check_gray(im, w, h, alpha, cw)) return r;
+    } else if (m == "p7_header") {
+      // well-formed P7 (PAM) headers of the four tuple types (DEPTH = samples per tuple as the format defines): all must load;
+      // the counterexample is over abstract line contents, so the driver builds the files itself
+      for (int a = 0; a < 2; a++) {
+        string file = gray_file(w < 2 ? 5 : w, h < 2 ? 3 : h, a, 8, true);
+        printf("P7 %s, DEPTH %d: %zu bytes\n", a ? "GRAYSCALE_ALPHA" : "GRAYSCALE", a ? 2 : 1, file.size());
+        TmpFile t(file);
+        try {
+          Image im(t.f);
+          if (int r = check_gray(im, w < 2 ? 5 : w, h < 2 ? 3 : h, a, 8)) return r;
+        } catch (const std::exception& e) {
+          printf("POSTCONDITION VIOLATED on the real code: a well-formed P7 file with TUPLTYPE %s / DEPTH %d was rejected: %s\n", a ? "GRAYSCALE_ALPHA" : "GRAYSCALE", a ? 2 : 1, e.what());
+          return 1;
+        }
+      }
+      for (int a = 0; a < 2; a++) {
+        size_t W = 4, H = 3;
+        char hdr[256];
+        snprintf(hdr, sizeof(hdr), "P7\nWIDTH %zu\nHEIGHT %zu\nDEPTH %d\nMAXVAL 255\nTUPLTYPE %s\nENDHDR\n", W, H, a ? 4 : 3, a ? "RGB_ALPHA" : "RGB");
+        string file = hdr;
+        for (size_t i = 0; i < W * H * (a ? 4 : 3); i++) file.push_back((char)pat(i, 8));
+        printf("P7 %s, DEPTH %d: %zu bytes\n", a ? "RGB_ALPHA" : "RGB", a ? 4 : 3, file.size());
+        TmpFile t(file);
+        try {
+          Image im(t.f);
+          if (int r = check_meta(im, W, H, a, 8)) return r;
+          for (size_t i = 0; i < W * H * (a ? 4 : 3); i++)
+            RCHECK(mem_sample(im, i) == pat(i, 8), "sample %zu = 0x%llX, the file has 0x%llX", i, (unsigned long long)mem_sample(im, i), (unsigned long long)pat(i, 8));
+        } catch (const std::exception& e) {
+          printf("POSTCONDITION VIOLATED on the real code: a well-formed P7 file with TUPLTYPE %s / DEPTH %d was rejected: %s\n", a ? "RGB_ALPHA" : "RGB", a ? 4 : 3, e.what());
+          return 1;
+        }
+      }
     } else if (m == "ppm_roundtrip") {
       Image a = make_image(w, h, alpha, cw);
       string bytes = a.save(Image::Format::COLOR_PPM);
